@@ -76,6 +76,27 @@ def call(e, st, fr, name, av, ins):
         return Ptr(o.id, 0)
     # ---- liballoc's non-generic RawVecInner<Global> methods (instantiated inside the precompiled std, so not in the IR).
     # Layout on the pinned toolchain (checked by the harness self-test h_selftest_vec): { cap: usize @0, ptr @8 }.
+    if 'raw_vec' in name and 'RawVecInner' in name and name.find('15try_allocate_in') >= 0:
+        res, capacity, zeroed, al, esz = av
+        capacity = _len(e, st, capacity)
+        al = _len(e, st, al)
+        esz = _len(e, st, esz)
+        e.store(st, res, int_ty(64), 0)  # Ok
+        if capacity == 0 or esz == 0:
+            e.store(st, Ptr(res.obj, res.off + 8), int_ty(64), 0)
+            e.store(st, Ptr(res.obj, res.off + 16), T_PTR, Ptr(None, al))
+            return None
+        o = st.alloc(capacity * esz, al, 'heap')
+        st.heap_live += 1
+        st.heap_bytes += capacity * esz
+        st.events.append(('alloc', o.id, capacity * esz, al))
+        if type(zeroed) is int and zeroed & 1:
+            d = o.data
+            for i in range(capacity * esz):
+                d[i] = (0, 1, 0)
+        e.store(st, Ptr(res.obj, res.off + 8), int_ty(64), capacity)
+        e.store(st, Ptr(res.obj, res.off + 16), T_PTR, Ptr(o.id, 0))
+        return None
     if 'raw_vec' in name and 'RawVecInner' in name and name.find('14grow_amortized') >= 0:
         self_, ln, additional, al, esz = av
         ln = _len(e, st, ln)
@@ -323,6 +344,18 @@ def llvm_intrinsic(e, st, fr, name, av, ins):
             r = A * B
             o = z3.Or(z3.Not(z3.BVMulNoOverflow(A, B, True)), z3.Not(z3.BVMulNoUnderflow(A, B)))
         return ('aggv', [z3.simplify(r), z3.simplify(o)])
+    m = re.match(r'llvm\.(scmp|ucmp)\.i(\d+)\.i(\d+)', name)
+    if m:
+        op, rw, w = m.group(1), int(m.group(2)), int(m.group(3))
+        a, b = av[0], av[1]
+        if type(a) is int and type(b) is int:
+            if op == 'scmp':
+                a, b = sext(a, w), sext(b, w)
+            return mask((a > b) - (a < b), rw)
+        A, B = _bv(a, w), _bv(b, w)
+        lt = (A < B) if op == 'scmp' else z3.ULT(A, B)
+        gt = (A > B) if op == 'scmp' else z3.UGT(A, B)
+        return z3.simplify(z3.If(lt, z3.BitVecVal((1 << rw) - 1, rw), z3.If(gt, z3.BitVecVal(1, rw), z3.BitVecVal(0, rw))))
     m = re.match(r'llvm\.(uadd|usub)\.sat\.i(\d+)', name)
     if m:
         op, w = m.group(1), int(m.group(2))
